@@ -37,8 +37,15 @@ class P(vlib.Prop):
             "back-off by close(stopCh) vs. the queue's stop) is resolved by observation: the harness reports how many ids "
             "first began after the call, the scheduler replays that many winning Reads (action (2, m, 1)).  Plus 400 / 8 000 UNGATED stress schedules (concurrent "
             "producers, self-answering backend with random outcomes and delays, max_size splitting, 1-4 ms flush timer, "
-            "small queues, Shutdown at a random moment), oracle-only.  Direct oracle on every schedule: see the header of "
-            "harness/C03/shutdown_test.go.")
+            "small queues, Shutdown at a random moment), oracle-only.  Storage faults: with a persistent queue the "
+            "queue-size snapshot write (queue sized by items) and/or client.Close fail in 35 % of the schedules each, so "
+            "persistentQueue.Shutdown returns an error; the model predicts whether Shutdown returns an error (event (2,[1])).  "
+            "Split family (300 / 6 000 gated schedules, oracle-only): max_size 1-2 with requests of 2-3 individually "
+            "identified items, so one stored request is exported by several calls with independently chosen outcomes.  "
+            "refcount harness (queuebatch): EVERY sequence of part results of length 1-4 (quick) / 1-6 (thorough) over "
+            "{nil, permanent, other final, shutdown error} through the real persistentQueue + refCountDone, kept/deleted "
+            "compared with the model's kept_after.  Direct oracle on every schedule: see the headers of "
+            "harness/C03/shutdown_test.go and refcount_test.go.")
     trusted_base = [
         "Coq 8.16.1 kernel + vm_compute (coqc); no axioms (Print Assumptions: closed under the global context)",
         "hand-written LTS coq/C03/Model.v (atomic sections of base_exporter.go Shutdown, queue_batch.go, async_queue.go, "
